@@ -150,6 +150,8 @@ impl BlockWriter {
 
         let mut offset: usize = 0;
         loop {
+            #[cfg(feature = "ypo_flute_verif")]
+            crate::verif::tick("blockwriter::decode_write_pkt");
             let size = self.decoder.as_mut().unwrap().write(&pkt[offset..])?;
             self.decoder_read(writer, now)?;
             offset += size;
@@ -168,6 +170,8 @@ impl BlockWriter {
         }
 
         loop {
+            #[cfg(feature = "ypo_flute_verif")]
+            crate::verif::tick("blockwriter::decoder_read");
             let size = match decoder.read(&mut self.buffer) {
                 Ok(res) => res,
                 Err(e) if e.kind() == std::io::ErrorKind::WouldBlock => return Ok(()),
